@@ -112,8 +112,13 @@ class C03(Prop):
         attrs, sizes, Qs, ys, sig, projs, ms, A, b = self.build(case)
         n = IC.prod(sizes)
 
-        def run(iters):
+        def run(iters, used=False):
             eng = FactoredInference(Domain(attrs, sizes), iters=iters)
+            if used:
+                # the statement does not ask for a new estimator object per call: first a short call on other answers
+                eng.iters = 3
+                eng.estimate([(Q, y[::-1] * 0.5, s * 2.0, p) for Q, y, s, p in ms][::-1], total=None, engine=case['solver'], options={})
+                eng.iters = iters
             model = eng.estimate(list(ms), total=float(case['N']) if case['total'] == 'known' else None, engine=case['solver'], options={})
             T = float(model.total)
             Lm = 0.0
@@ -146,6 +151,9 @@ class C03(Prop):
             Luf = IC.ls_loss(A, b, np.full(n, Tf / n))
             few.append(dict(iters=it, L_model=Lf, L_uniform=Luf, ok=bool(Lf <= Luf + 1e-9 * (1 + abs(Luf)))))
         out.append(('few-iterations-not-worse-than-uniform-start', all(f['ok'] for f in few), dict(solver=case['solver'], runs=few)))
+        Tu, Lu = run(det.get('escalated_iters', case['iters']) if Lm != first_Lm else case['iters'], used=True)
+        out.append(('used-estimator-attains-what-a-new-one-attains', Tu == T and Lu <= max(Lm, L_ref) + tol,
+                    dict(solver=case['solver'], L_model_used_estimator=Lu, L_model_new_estimator=Lm, L_ref=L_ref, tol=tol, total_used=Tu, total_new=T)))
         if g_ref > 0.1 * tol:
             # the harness's own certificate is not sharp enough to decide the bracket on this instance: say so, decide nothing
             out.append(('skipped-reference-not-certified', True, det))
